@@ -325,6 +325,14 @@ pub fn run(batch: &str, tape: &mut Tape, rep: &mut Report) {
     let nops = tape.range(2, 8);
     let mut ops = vec![];
     let mut saves = 0;
+    // a fifth of the histories start from a store that already went through 8-11 checkpoints, so that ids cross
+    // from one digit to two (names like "9" and "10" sort differently as text and as numbers)
+    if batch != "sweep" && tape.chance(1, 5) {
+        for _ in 0..tape.range(8, 11) {
+            ops.push(Op::Save);
+            saves += 1;
+        }
+    }
     for _ in 0..nops {
         let o = match tape.draw(10) {
             0 => Op::Restart,
